@@ -385,6 +385,38 @@ func (t *tabEval) exec(list []ast.Stmt) (bool, tv, ast.Node) {
 	return false, tv{}, nil
 }
 
+type tabPathV struct {
+	atoms []atomVal
+	val   tv
+	node  ast.Node
+}
+
+// tabulateV enumerates all abstract paths of the body and returns the abstract value each returns.
+func tabulateV(s *sided, forced map[string]int) ([]tabPathV, string) {
+	or := &Oracle{}
+	var paths []tabPathV
+	for n := 0; n < 5000; n++ {
+		or.pos = 0
+		t := &tabEval{s: s, or: or, forced: forced, seen: map[string]int{}, locals: map[string]int{}, hasLocal: map[string]bool{}}
+		done, v, node := t.exec(s.body.List)
+		if t.undecided != "" {
+			return nil, t.undecided
+		}
+		if !done {
+			return nil, "a path falls off the end of the function"
+		}
+		// a boolean result may still be symbolic (a bare comparison as the returned expression)
+		if !v.isInt && !v.isBool && v.side == "" {
+			return nil, "a path returns a value outside the table's vocabulary"
+		}
+		paths = append(paths, tabPathV{atoms: t.atoms, val: v, node: node})
+		if !or.next() {
+			return paths, ""
+		}
+	}
+	return nil, "more than 5000 abstract paths"
+}
+
 // tabulate enumerates all abstract paths of the residual body.
 func tabulate(s *sided, forced map[string]int) ([]tabPath, string) {
 	or := &Oracle{}
